@@ -59,6 +59,9 @@ def gen_text(rng, entries):
             parts.append(rng.choice(list(entries)))
         elif r < 0.75:
             parts.append(f"[0x{rng.randrange(256):02X}]" if rng.random() < 0.7 else f"[0x{rng.randrange(16):x}]")
+        elif r < 0.8:
+            # NOT escapes (the syntax is `[0x` + hex digits + `]` exactly): capital X, a blank inside, no digits, a missing bracket -- ordinary characters
+            parts.append(rng.choice(["[0X41]", "[0x 41]", "[0x]", "[0x41", "0x41]", "[ 0x41]", "[0xG1]"]))
         else:
             parts.append(rng.choice(alphabet))
     return "".join(parts).replace("'", "")
